@@ -9,6 +9,7 @@ pub mod c08;
 pub mod c09;
 pub mod c10;
 pub mod c13;
+pub mod c14;
 
 use crate::ctx::Ctx;
 
@@ -60,6 +61,7 @@ pub fn run(id: &str, ctx: &mut Ctx) -> bool {
         "C09" => c09::run(ctx),
         "C10" => c10::run(ctx),
         "C13" => c13::run(ctx),
+        "C14" => c14::run(ctx),
         _ => return false,
     }
     true
@@ -102,6 +104,7 @@ pub fn replay_value(id: &str, ctx: &mut Ctx, r: &serde_json::Value) -> bool {
         "C08" => c08::replay(ctx, r),
         "C10" => c10::replay(ctx, r),
         "C13" => c13::replay(ctx, r),
+        "C14" => c14::replay(ctx, r),
         _ => {
             let _ = (ctx, r);
             false
